@@ -61,6 +61,11 @@ def run(P, rep, tier):
     # an emptied metadata directory that is left behind occupies a reserved sibling name: a later user copy / move onto that
     # name fails half-way (cleanup rule of C06.R4)
     rep.attempt(c06.r4_cleanup, P, rep, ctx)
+    # a cached per-node metadata view keeps the metadata directory path of a node that was moved: the next attach re-creates a
+    # user-visible group at the old path (fresh-view rule of C07.R5)
+    from . import c07
+
+    rep.attempt(c07.r5_fresh_view, P, rep, ctx, "C08.R7")
     rep.floor("C08.R1", 25, "protocol members")
     rep.floor("C08.R2", 12, "tainted flows")
     rep.floor("C08.R3", 8)
@@ -652,13 +657,10 @@ def r4_predicates(P, rep, ctx):
     fi = P.func(f"{U}.is_internal_path")
     dflt = fi.node.args.defaults
     rep.check(len(dflt) == 1 and norm(dflt[0]) == "METADOR_PREF", "C08.R4", fi.qual, "is_internal_path defaults to METADOR_PREF", fi.loc(), construct="default prefix", message="is_internal_path does not default to METADOR_PREF")
-    rets = [x.value for x in walk_local(fi.node) if isinstance(x, ast.Return)]
-    ok = False
-    if len(rets) == 1 and isinstance(rets[0], ast.BoolOp) and isinstance(rets[0].op, ast.Or):
-        parts = [norm(v) for v in rets[0].values]
-        rel = any(p == "path.startswith(pref)" for p in parts)
-        abs_ = any(p in ("path.find(f'/{pref}') >= 0", "f'/{pref}' in path", "path.find('/' + pref) >= 0", "'/' + pref in path") for p in parts)
-        ok = rel and abs_
+    # the predicate as one condition (however it is split into returns): relative first segment OR any '/'-prefixed segment
+    prm, prf = fi.params[0], fi.params[1]
+    rf = F(ctx, fi).result_formula()
+    ok = rf is not None and MM.equivalent(rf, MM.canon_strings(ast.parse(f"{prm}.startswith({prf}) or f'/{{{prf}}}' in {prm}", mode="eval").body))
     rep.check(ok, "C08.R4", fi.qual, "is_internal_path tests the relative first segment and every '/'-prefixed segment with the same prefix", fi.loc(), construct="is_internal_path body",
               message="is_internal_path does not test both `path.startswith(pref)` and the '/'+pref form: some reserved paths pass the guard")
     # bookkeeping paths are recognised through the predicates only: no ad-hoc substring / prefix tests on the constants
